@@ -1,6 +1,7 @@
 //! Deterministic simulation harness for dswd/vpncloud (compiled as a child module of the real crate root).
 #![allow(clippy::all)]
 
+pub mod c05;
 pub mod c08;
 pub mod c15;
 pub mod chooser;
@@ -17,6 +18,7 @@ use runner::{Scenario, Tier};
 
 pub fn scenario_for(pid: &str) -> Option<&'static dyn Scenario> {
     Some(match pid {
+        "C05" => &c05::C05,
         "C08" => &c08::C08,
         "C15" => &c15::C15,
         _ => return None,
@@ -44,6 +46,22 @@ pub fn dispatch() -> Option<i32> {
         return None;
     }
     log::set_max_level(log::LevelFilter::Off);
+    if let Ok(level) = std::env::var("VERIF_LOG") {
+        // debugging aid: the node's own log lines on stderr (cannot influence the run)
+        struct L;
+        impl log::Log for L {
+            fn enabled(&self, _m: &log::Metadata) -> bool {
+                true
+            }
+            fn log(&self, r: &log::Record) {
+                use crate::util::TimeSource;
+                eprintln!("      [{} {}] {}", io::SimClock::now(), r.level(), r.args());
+            }
+            fn flush(&self) {}
+        }
+        let _ = log::set_boxed_logger(Box::new(L));
+        log::set_max_level(if level == "debug" { log::LevelFilter::Debug } else { log::LevelFilter::Info });
+    }
     io::init_panic_hook();
     let cmd = args.get(2).map(|s| s.as_str()).unwrap_or("");
     let pid = arg(&args, "--property").unwrap_or("");
